@@ -25,6 +25,8 @@ var (
 	flagProp    = flag.String("prop", "", "property whose violations count (others are notes)")
 	flagMaxViol = flag.Int("maxviol", 20, "stop after this many violating runs")
 	flagTier    = flag.String("tier", "quick", "quick or thorough")
+	flagWIdx    = flag.Int("widx", 0, "index of this worker among the workers of its profile")
+	flagWN      = flag.Int("wn", 1, "number of workers of this profile")
 	flagShrink  = flag.String("shrink", "", "replay file to minimise")
 	flagShrinkO = flag.String("shrinkout", "", "where to write the minimised replay file")
 	flagShrinkB = flag.Duration("shrinkbudget", 30*time.Second, "wall-clock budget for minimisation")
